@@ -164,3 +164,7 @@ def run(chk):
     run_kernels(chk, items)
     L1m.settle(chk, [o for o in chk.obs if "ExtendedCoordinates" in o.name], lambda: setext_battery(chk.seed), "Point.SetExtendedCoordinates")
     chk.samples = [o.j() for o in chk.obs if "ExtendedCoordinates" in o.name][:5]
+
+
+def safety_net(chk):
+    return setext_battery(chk.seed)
